@@ -7,7 +7,7 @@ import z3
 from contracts.common import COLS, col, nof, sym_tree, sym_tree_fixed
 from pyvc import ext_C07
 from pyvc.spec import Registry
-from pyvc.values import NArr, Obj, PList, SArr, fresh_name, to_z3, zint
+from pyvc.values import NArr, Obj, PDict, PList, SArr, fresh_name, to_z3, zint
 
 ext_C07.install()
 
@@ -272,6 +272,9 @@ def register_redirect(R):
         if not vars.get("sort"):
             sort_call_hint(E, vars)
 
+    global RR_POST
+    RR_POST = post  # the clause builder, also used by cat_tree's call-site contract of redirect_tree
+
     POSTS = ["same-columns-and-size", "fresh-storage", "requested-node-is-root", "it-is-the-only-root", "path-ends-at-the-old-root", "path-edges-reversed",
              "off-path-parents-kept", "undirected-edges-kept", "every-node-reaches-the-new-root", "types-of-old-and-new-root-exchanged", "every-other-attribute-kept"]
 
@@ -501,6 +504,8 @@ def ct_setup(n1, n2, translate):
 
 def ct_pre(which):
     def f(E, v, o):
+        if isinstance(col(v["tree1"], "id"), SArr):
+            return cts_pre(E, v, which)
         out = []
         for nm in ("tree1", "tree2"):
             t = v[nm]
@@ -523,6 +528,8 @@ def ct_post(which):
         res = v["result"]
         if not isinstance(res, Obj) or "presort" not in E.ghost:
             return False
+        if isinstance(col(o["tree1"], "id"), SArr):
+            return cts_post(E, v, o, which)
         S, sg, inv = E.ghost["presort"]  # S: the concatenated table as handed to _sort_tree
         t1, t2 = o["tree1"], o["tree2"]
         A, B, T = ndata(t1), ndata(t2), ndata(S)
@@ -588,6 +595,232 @@ def ct_post(which):
     return (which, f)
 
 
+
+# =========================================================================== cat_tree for SYMBOLIC sizes of both trees
+# Both trees have a symbolic number of nodes (>= 1), ids = positions, the root at ANY position (ghosts root1 / root), depth witnesses
+# depth1 / depth; both junction nodes symbolic.  redirect_tree enters through a call-site contract made of the clauses proved for it above
+# (those that do not mention its local `path`); the list of the junction's children is the real boolean-mask filter (ghost maps kappa / rho
+# of the numpy model), the relinking loop is cut by an invariant, np.pad / np.delete / np.concatenate are library models for symbolic lengths.
+RT = f"{TU}:redirect_tree"
+RR_POST = None
+
+
+def _like_tree(S, fr):
+    """result shape of redirect_tree at a call site: a tree of the argument's class with the same columns (fresh storage)"""
+    t = fr.vars["tree"]
+    nd = {c: SArr.fresh(a.kind, nof(t), name="rr_" + c) for c, a in ndata(t).items()}
+    return Obj(t.cls, dict(t.fields, ndata=PDict(nd), comments=PList(list(t.fields["comments"].items))))
+
+
+def rr_callsite_contract():
+    from pyvc.spec import Contract
+
+    usable = ["same-columns-and-size", "fresh-storage", "requested-node-is-root", "it-is-the-only-root", "undirected-edges-kept",
+              "types-of-old-and-new-root-exchanged", "every-other-attribute-kept"]
+
+    def reach(E, v, o):
+        """`every-node-reaches-the-new-root`: the witnesses are existential, the call site gets its own symbols (prow2 / sdepth2)"""
+        saved = {k: E.spec_extra.get(k) for k in ("prow", "sdepth", "srootrow")}
+        E.spec_extra.update(prow=E.spec_extra["prow2"], sdepth=E.spec_extra["sdepth2"], srootrow=o["new_root"])
+        try:
+            return RR_POST("every-node-reaches-the-new-root")[1](E, v, o)
+        finally:
+            E.spec_extra.update(saved)
+
+    return Contract(RT, prop="C07", requires=[("sort-is-off", lambda E, v, o: v["sort"] is False)] + RR_PRE, returns=_like_tree,
+                    ensures=[RR_POST(w) for w in usable] + [("every-node-reaches-the-new-root", reach)])
+
+
+class _CatOverlay:
+    def __init__(self, base):
+        self.base, self.local = base, None
+
+    def get(self, key, default=None):
+        if key == RT:
+            if self.local is None:
+                self.local = rr_callsite_contract()
+            return self.local
+        return self.base.get(key, default)
+
+    def __getattr__(self, name):
+        return getattr(self.base, name)
+
+
+def cts_setup(translate):
+    def f(S):
+        t1 = sym_tree(S, "a", frozen=True, extra_cols=("tag",))   # `tag`: a column tree2 lacks (zero-padded)
+        t2 = sym_tree(S, "b", frozen=True, extra_cols=("aux",))   # `aux`: a column tree1 lacks (dropped)
+        root1 = S.int("root1")
+        return dict(tree1=t1, tree2=t2, node1=S.int("node1"), node2=S.int("node2"), translate=translate,
+                    __ghost__={"root": S.int("root2"), "root1": root1, "srootrow": root1})
+
+    return f
+
+
+CT_GHOSTS = dict(depth=(["int"], "int"), depth1=(["int"], "int"), prow2=(["int"], "int"), sdepth2=(["int"], "int"), **SORT_GHOSTS)
+
+
+def _wf(t, root, depth):
+    n, idc, pid = nof(t), col(t, "id").arr, col(t, "pid").arr
+    i = z3.Int(fresh_name("i"))
+    rng = z3.And(i >= 0, i < n)
+    return z3.And(z3.ForAll([i], z3.Implies(rng, z3.Select(idc, i) == i)), root >= 0, root < n, z3.Select(pid, root) == -1,
+                  z3.ForAll([i], z3.Implies(z3.And(rng, i != root), z3.And(z3.Select(pid, i) >= 0, z3.Select(pid, i) < n))),
+                  depth(root) == 0, z3.ForAll([i], z3.Implies(z3.And(rng, i != root), z3.And(depth(i) == depth(z3.Select(pid, i)) + 1, depth(i) > 0))))
+
+
+def cts_pre(E, v, which):
+    X = E.spec_extra
+    if which == "well-formed-inputs":
+        return z3.And(_wf(v["tree1"], to_z3(X["root1"], "int"), X["depth1"].f), _wf(v["tree2"], to_z3(X["root"], "int"), X["depth"].f))
+    a, b = to_z3(v["node1"], "int"), to_z3(v["node2"], "int")
+    return z3.And(a >= 0, a < nof(v["tree1"]), b >= 0, b < nof(v["tree2"]))
+
+
+class Cat:
+    """vocabulary of the symbolic clauses: A / B the input tables, a / b the junctions, n1 / n2 the sizes, the translation, the merge
+    condition, adj = undirected edge of tree2, row(j) = position of tree2's node j in the concatenated table"""
+
+    def __init__(self, E, v, o):
+        self.A, self.B = ndata(o["tree1"]), ndata(o["tree2"])
+        self.n1, self.n2 = nof(o["tree1"]), nof(o["tree2"])
+        self.a, self.b = to_z3(o["node1"], "int"), to_z3(o["node2"], "int")
+        self.root2 = to_z3(E.spec_extra["root"], "int")
+        tr = bool(v["translate"])
+        g = lambda t, c, i: z3.Select(t[c].arr, i)
+        self.g = g
+        self.off = {c: (g(self.A, c, self.a) - g(self.B, c, self.b)) if tr else z3.RealVal(0) for c in "xyz"}
+        d = [g(self.B, c, self.b) + self.off[c] - g(self.A, c, self.a) for c in "xyz"]
+        self.merged = z3.simplify(d[0] * d[0] + d[1] * d[1] + d[2] * d[2] < EPS2)
+        self.adj = lambda p, q: z3.Or(g(self.B, "pid", p) == q, g(self.B, "pid", q) == p)
+
+
+def cts_post(E, v, o, which):
+    res = v["result"]
+    S, sg, inv = E.ghost["presort"]  # S: the concatenated table as handed to _sort_tree
+    T = ndata(S)
+    C = Cat(E, v, o)
+    A, B, n1, n2, a, b, g = C.A, C.B, C.n1, C.n2, C.a, C.b, C.g
+    if set(T) != set(A) or not all(type(T[c]) is SArr for c in T):
+        return False
+    m = T["id"].nz()
+    remove = v["remove"]
+    mgp = remove is not None  # on this path
+    lens = z3.And(*[T[c].nz() == m for c in T])
+    if which == "merged-iff-junctions-coincide":
+        return z3.And(lens, z3.If(C.merged, m == n1 + n2 - 1, m == n1 + n2), C.merged == z3.BoolVal(mgp))
+    i, j, x, y = (z3.Int(fresh_name(q)) for q in "ijxy")
+    r1, r2 = z3.And(i >= 0, i < n1), z3.And(j >= 0, j < n2)
+    if which == "first-tree-rows-unchanged":
+        return z3.And(*[z3.ForAll([i], z3.Implies(r1, g(T, c, i) == g(A, c, i))) for c in A])
+    row = lambda q: (n1 + q - z3.If(q > b, 1, 0)) if mgp else (n1 + q)
+    live = lambda q: (q != b) if mgp else z3.BoolVal(True)
+    if which == "second-tree-rows-are-a-shifted-translated-copy":
+        ty = z3.If(j == b, g(B, "type", C.root2), z3.If(j == C.root2, g(B, "type", b), g(B, "type", j)))  # re-rooting exchanges the types of old and new root
+        facts = [g(T, "id", row(j)) == j + n1, g(T, "type", row(j)) == ty, g(T, "r", row(j)) == g(B, "r", j), g(T, "tag", row(j)) == 0]
+        facts += [g(T, c, row(j)) == g(B, c, j) + C.off[c] for c in "xyz"]
+        return z3.ForAll([j], z3.Implies(z3.And(r2, live(j)), z3.And(*facts)))
+    P = lambda q: g(T, "pid", row(q))
+    if which == "joined-at-the-junction":
+        if not mgp:
+            return P(b) == a
+        return z3.ForAll([j], z3.Implies(z3.And(r2, live(j), C.adj(j, b)), P(j) == a))
+    inner = lambda q: z3.And(live(q), z3.Not(C.adj(q, b))) if mgp else (q != b)
+    if which == "no-other-edge-added":
+        q = P(j) - n1
+        return z3.ForAll([j], z3.Implies(z3.And(r2, inner(j)), z3.And(q >= 0, q < n2, q != j, C.adj(j, q), (q != b) if mgp else True)))
+    if which == "no-edge-lost":
+        keep = z3.And(C.adj(x, y), x != b, y != b) if mgp else C.adj(x, y)
+        return z3.ForAll([x, y], z3.Implies(z3.And(x >= 0, x < n2, y >= 0, y < n2, x != y, keep), z3.Or(P(x) == y + n1, P(y) == x + n1)))
+    R_ = ndata(res)
+    if set(R_) != set(T) or res is not v["tree"]:
+        return False
+    if which == "result-is-fresh":
+        return res.uid not in E.entry_uids and res.fields["ndata"].uid not in E.entry_uids and all(R_[c].uid not in E.entry_uids for c in R_)
+    if which == "result/every-column-permuted-alike":
+        return z3.And(*[z3.And(alen(R_[c]) == m, forall_rng(m, lambda k, _c=c: sel(R_[_c], k) == sel(T[_c], z3.Select(sg, k)), "k")) for c in T if c not in ("id", "pid")])
+    if which.startswith("result/"):
+        return _sorted_relabelling(E, T["id"], T["pid"], R_["id"], R_["pid"], sg, inv, m, which[7:])
+    raise KeyError(which)
+
+
+def _sd2(E, v):
+    """distance of a node of tree2 to the junction b in the tree re-rooted at b: the witness of redirect_tree's contract when it was
+    called, the input's own depth witness when b already was the root"""
+    called = any(nm == "redirect_tree" for nm, _ in E.call_log)
+    return E.spec_extra["sdepth2"].f if called else E.spec_extra["depth"].f
+
+
+def cts_link_inv(which):
+    """loop 1 (`for n in link_to_root: tree.node(n).pid = node1`), k iterations done: only the parent column changes, and exactly the
+    rows listed so far point to node1"""
+    def f(E, v, o, entry):
+        t, t0 = v["tree"], entry["tree"]
+        nd, nd0 = ndata(t), ndata(t0)
+        if set(nd) != set(nd0):
+            return False
+        k = to_z3(v["_k1"], "int")
+        r = z3.Int(fresh_name("r"))
+        n = nd0["id"].nz()
+        rng = z3.And(r >= 0, r < n)
+        if which == "other-columns-untouched":
+            return z3.And(*[z3.And(nd[c].nz() == n, z3.ForAll([r], z3.Implies(rng, z3.Select(nd[c].arr, r) == z3.Select(nd0[c].arr, r)))) for c in nd0 if c != "pid"])
+        ns, b, a = to_z3(v["ns"], "int"), to_z3(o["node2"], "int"), to_z3(o["node1"], "int")
+        if v["remove"] is None:
+            listed = z3.And(r == b + ns, k >= 1)
+        else:
+            flt = E.ghost.get("c07-children")
+            if flt is None:
+                return False
+            q = r - ns
+            listed = z3.And(q >= 0, q < flt.src.nz(), flt.mask.get(q).z, flt.rho(q) < k)
+        if which == "rows-listed-so-far-point-to-node1":
+            return z3.And(nd["pid"].nz() == n, z3.ForAll([r], z3.Implies(rng, z3.Select(nd["pid"].arr, r) == z3.If(listed, a, z3.Select(nd0["pid"].arr, r)))))
+        if which == "list-holds-the-shifted-children-in-row-order":
+            L = v["link_to_root"]
+            mm = z3.Int(fresh_name("m"))
+            if v["remove"] is None:
+                return True
+            return z3.And(zint(L.n) == flt.nz(), z3.ForAll([mm], z3.Implies(z3.And(mm >= 0, mm < flt.nz()), z3.Select(L.cols[0], mm) == flt.kappa(mm) + ns)))
+        raise KeyError(which)
+
+    return (which, f)
+
+
+def cts_after_list(E, v, o):
+    """annotation right after `link_to_root = [...]` (merged case): remember the boolean-mask filter behind children()"""
+    if v.get("remove") is not None and isinstance(col(o["tree1"], "id"), SArr):
+        E.ghost["c07-children"] = getattr(E, "last_filter", None)
+    return True
+
+
+def cts_sort_hint(E, vars):
+    """ghost witnesses for the precondition of _sort_tree on the concatenated table (definitions of fresh symbols): prow = the row that
+    carries the parent id, sdepth = depth in tree1 for tree1's rows, depth of the junction (+1 when not merged) + distance to the second
+    junction for tree2's rows"""
+    o = E.top_old
+    if not isinstance(col(o["tree1"], "id"), SArr) or "remove" not in vars:
+        return
+    X = E.spec_extra
+    prow, sdepth, depth1 = X["prow"].f, X["sdepth"].f, X["depth1"].f
+    sd2 = _sd2(E, vars)
+    n1, a, b = nof(o["tree1"]), to_z3(o["node1"], "int"), to_z3(o["node2"], "int")
+    mgp = vars["remove"] is not None
+    T = ndata(vars["tree"])
+    r = z3.Int(fresh_name("r"))
+    j = (r - n1 + z3.If(r - n1 >= b, 1, 0)) if mgp else (r - n1)     # node of tree2 shown in row r >= n1
+    pidv = z3.Select(T["pid"].arr, r)                                 # parent ID stored in row r
+    pj = pidv - n1                                                     # ... as a node of tree2
+    prow_def = z3.If(pidv < n1, pidv, (n1 + pj - z3.If(pj > b, 1, 0)) if mgp else pidv)
+    E.assume(z3.ForAll([r], prow(r) == prow_def))
+    E.assume(z3.ForAll([r], sdepth(r) == z3.If(r < n1, depth1(r), depth1(a) + sd2(j) + (0 if mgp else 1))))
+    E.assumptions.add("ghost definition (cat_tree, symbolic sizes): prow / sdepth of the concatenated table from the depth witnesses of the two trees")
+
+
+CTS_LOOPS = {1: dict(invariant=[cts_link_inv(w) for w in ("other-columns-untouched", "list-holds-the-shifted-children-in-row-order", "rows-listed-so-far-point-to-node1")],
+                     types={"link_to_root": "int"}, modifies=["tree.ndata"])}
+
+
 CT_POSTS = ["merged-iff-junctions-coincide", "first-tree-rows-unchanged", "second-tree-rows-are-a-shifted-translated-copy", "joined-at-the-junction",
             "no-other-edge-added", "no-edge-lost", "result-is-fresh", "result/every-column-permuted-alike"] + ["result/" + w for w in RELABEL]
 
@@ -603,6 +836,24 @@ def register_cat(R):
         notes="sizes fixed per variant (tree1 of 1-2 nodes, tree2 of 1-3 nodes, and 1 + 4 nodes), all coordinates / radii / types / parent tables and both junction "
               "nodes symbolic; the inner redirect_tree is inlined (its loop unrolled); the clauses speak about the concatenated table as handed to "
               "_sort_tree (ghost `presort`), the result is its sorted relabelling",
+    )
+    from pyvc import ext_C09
+
+    # second registration of the same function (same property): symbolic sizes.  Its obligations carry the same names as those of
+    # the fixed-size variants above (one clause, all variants).
+    R.add(
+        f"{TU}:cat_tree",
+        prop="C07",
+        variants={f"symbolic sizes,translate={tr}": cts_setup(tr) for tr in (True, False)},
+        requires=[ct_pre("well-formed-inputs"), ct_pre("junctions-are-nodes")],
+        ensures=[ct_post(w) for w in CT_POSTS],
+        ghost_funcs=CT_GHOSTS,
+        loops=CTS_LOOPS,
+        options=dict(registry=_CatOverlay(R), models=ext_C09.MODELS, feas_timeout_ms=10000,
+                     asserts_after={"link_to_root": [("children-filter-recorded", cts_after_list)]},
+                     hints={"call:_sort_tree/pre/ids-distinct": cts_sort_hint}),
+        notes="both trees of symbolic size (>= 1), ids = positions, root anywhere (ghost root1 / root2), both junctions symbolic; redirect_tree through a "
+              "call-site contract made of its proved clauses; clauses about the concatenated table as handed to _sort_tree, the result is its sorted relabelling",
     )
 
 
